@@ -4,7 +4,7 @@
 # Any VIOLATION is a false alarm of mine. KEEP=1 keeps the diff under /verif/refactors_auto/<transform>[-mod-rem].diff
 set -u
 t="$1"; mod="${2:-1}"; rem="${3:-0}"; only="${4:-}"
-export GOFLAGS=-mod=mod GOPROXY=off; unset GOWORK
+export GOFLAGS="-mod=mod -trimpath" GOPROXY=off; unset GOWORK
 cd /verif
 [ -x bin/shapefuzz ] && [ -z "$(find checker/shapefuzz -newer bin/shapefuzz -name '*.go' -print -quit)" ] || (cd checker && go build -o ../bin/shapefuzz ./shapefuzz) || exit 2
 T=$(mktemp -d "${TMPDIR:-/tmp}/emcheck-sf-XXXXXX"); trap 'rm -rf "$T"' EXIT
